@@ -7,7 +7,7 @@ KN = {0: "int", 1: "cint", 2: "mo", 3: "co", 4: "lref", 5: "rref", 6: "clref"}
 CN = {0: "l", 1: "cl", 2: "r", 3: "cr"}
 FAM = {1: "get_tuple", 2: "get_pair", 4: "sb_pair", 5: "apply", 6: "mft", 7: "cat"}
 SUB = {8: ("catshape", 6), 9: ("fwd", 5), 10: ("empty", 4), 11: ("bindfront", 6), 12: ("ipf", 6), 13: ("fref", 6), 14: ("refw", 4),
-       15: ("pairref", 4), 16: ("invoke", 5), 17: ("notfn", 3), 18: ("ctor", 6), 19: ("tuplelike", 4), 20: ("adlswap", 4), 21: ("heteroclass", 2)}
+       15: ("pairref", 4), 16: ("invoke", 5), 17: ("notfn", 3), 18: ("ctor", 6), 19: ("tuplelike", 4), 20: ("adlswap", 4), 21: ("heteroclass", 2), 22: ("lessonly", 3)}
 cells = [("sb_tuple_int", 3, 0, 9)]  # structured bindings on etl::tuple: one representative cell (no std::tuple_size support at all)
 for f, fn in FAM.items():
     for k in (0, 1, 2, 3):           # value element kinds: all four categories in one cell
